@@ -34,6 +34,10 @@ pub struct Case {
     pub base: Base,
     pub shape: Shape,
     pub glob: Expr,
+    /// walk with `LinkBehavior::ReadTarget` (linked directories are descended into; re-entrant and
+    /// dangling links are error items)
+    #[serde(default)]
+    pub follow: bool,
 }
 
 pub fn join_prefix(prefix: &str, style: u8, glob: &Expr) -> Expr {
@@ -189,7 +193,7 @@ impl Property for C02 {
     }
     fn rule(&self) -> String {
         "generated directory trees (<= 4 levels, <= 24 entries, pattern-like / hidden / non-ASCII \
-         names, links as leaves) x base spellings (absolute, trailing `/`, trailing `/.`, relative, \
+         names, links — leaves by default, followed in a quarter of the walks —, regular files whose names are not valid UTF-8) x base spellings (absolute, trailing `/`, trailing `/.`, relative, \
          a sub-directory, the parent) x globs whose literals are names of the tree, in four shapes \
          (no prefix, invariant prefix of existing directories incl. `{a}` / `<a/:1>` spellings, \
          rooted by the absolute scratch path, `.`/`..` prefixes); one evaluation = one walk \
@@ -201,7 +205,7 @@ impl Property for C02 {
     fn assumptions(&self) -> Vec<String> {
         vec![
             "paths are compared component-wise (a trailing `/` or `/.` of the base is not a difference)".into(),
-            "default link behaviour (links are leaves); UTF-8 names only".into(),
+            "both link behaviours (a quarter of the walks read link targets); names that are not valid UTF-8 only for regular files, matched through their lossy text".into(),
             "the expected set is defined with the glob's own is_match on the candidate text (C01 ties is_match to the documentation)".into(),
         ]
     }
@@ -215,14 +219,15 @@ impl Property for C02 {
         256
     }
     fn required_counters(&self) -> Vec<&'static str> {
-        vec!["walks", "trees_with_links", "pruned_links", "shape_plain", "shape_prefixed", "shape_rooted", "shape_dots", "pruned_directories", "walk_root_expected", "base_noncanonical", "component_program_checks"]
+        vec!["walks", "trees_with_links", "pruned_links", "shape_plain", "shape_prefixed", "shape_rooted", "shape_dots", "pruned_directories", "walk_root_expected", "base_noncanonical", "component_program_checks", "read_target_walks"]
     }
     fn decode(&self, t: &mut Tape) -> Case {
         let tree = gen_tree(t, &TreeCfg { links: true, non_utf8: true, ..TreeCfg::default() });
         let base = gen_base(t, &tree);
         let shape = gen_shape(t, &tree, &base);
         let glob = gen_expr(t, &fs_glob_cfg(&tree));
-        Case { tree, base, shape, glob }
+        let follow = t.chance(64);
+        Case { tree, base, shape, glob, follow }
     }
     fn directed(&self) -> Vec<Case> {
         let tree = TreeSpec {
@@ -236,10 +241,10 @@ impl Property for C02 {
         };
         let star = || Tok::Zom { lazy: false };
         vec![
-            Case { tree: tree.clone(), base: Base::Abs, shape: Shape::Rooted, glob: vec![star(), Tok::Sep, star(), Tok::Sep, star()] },
-            Case { tree: tree.clone(), base: Base::Sub("a".into()), shape: Shape::Dots(vec!["..".into()]), glob: vec![Tok::Tree { lead: false, trail: false }] },
-            Case { tree: tree.clone(), base: Base::Abs, shape: Shape::Dots(vec![".".into(), "a".into()]), glob: vec![star()] },
-            Case { tree, base: Base::Abs, shape: Shape::Prefixed("a/b".into(), 0), glob: vec![star()] },
+            Case { tree: tree.clone(), base: Base::Abs, shape: Shape::Rooted, glob: vec![star(), Tok::Sep, star(), Tok::Sep, star()], follow: false },
+            Case { tree: tree.clone(), base: Base::Sub("a".into()), shape: Shape::Dots(vec!["..".into()]), glob: vec![Tok::Tree { lead: false, trail: false }], follow: false },
+            Case { tree: tree.clone(), base: Base::Abs, shape: Shape::Dots(vec![".".into(), "a".into()]), glob: vec![star()], follow: false },
+            Case { tree, base: Base::Abs, shape: Shape::Prefixed("a/b".into(), 0), glob: vec![star()], follow: false },
         ]
     }
     fn shrink(&self, c: &Case) -> Vec<Case> {
@@ -263,13 +268,13 @@ impl Property for C02 {
                 }
             }
             let nodes: Vec<Node> = c.tree.nodes.iter().filter(|n| n.path != *p && !n.path.starts_with(&format!("{}/", p))).cloned().collect();
-            out.push(Case { tree: TreeSpec { nodes }, base: c.base.clone(), shape: c.shape.clone(), glob: c.glob.clone() });
+            out.push(Case { tree: TreeSpec { nodes }, base: c.base.clone(), shape: c.shape.clone(), glob: c.glob.clone(), follow: c.follow });
         }
         for e in shrink_expr(&c.glob) {
-            out.push(Case { tree: c.tree.clone(), base: c.base.clone(), shape: c.shape.clone(), glob: normalize(&e, true) });
+            out.push(Case { tree: c.tree.clone(), base: c.base.clone(), shape: c.shape.clone(), glob: normalize(&e, true), follow: c.follow });
         }
         if c.base != Base::Abs && !matches!(c.base, Base::Sub(_)) {
-            out.push(Case { tree: c.tree.clone(), base: Base::Abs, shape: c.shape.clone(), glob: c.glob.clone() });
+            out.push(Case { tree: c.tree.clone(), base: Base::Abs, shape: c.shape.clone(), glob: c.glob.clone(), follow: c.follow });
         }
         out
     }
@@ -340,7 +345,58 @@ impl Property for C02 {
             st.count("trees_with_links");
         }
         // expected
-        let uni = universe(&case.shape, &s, &base_given, &base_abs, false);
+        let uni = if case.follow {
+            // where the walk starts matters for which links re-enter an ancestor: the reference
+            // traversal starts where the walk does — at the base joined with the invariant prefix
+            let (pre, _) = glob.clone().partition();
+            let pre_text = pre.to_string_lossy().trim_end_matches('/').to_string();
+            let rooted = case.shape == Shape::Rooted;
+            let (start_given, start_abs) = if rooted {
+                (std::path::PathBuf::from(&pre_text), std::path::PathBuf::from(&pre_text))
+            }
+            else if pre_text.is_empty() {
+                (base_given.clone(), base_abs.clone())
+            }
+            else {
+                (base_given.join(&pre_text), base_abs.join(&pre_text))
+            };
+            if rooted && !start_abs.starts_with(&s.top) {
+                st.count("skipped_rooted_outside_scratch");
+                return Ok(());
+            }
+            if !start_abs.is_dir() {
+                st.count("read_target_start_not_a_directory");
+                return Ok(());
+            }
+            ref_walk(&start_abs, true)
+                .into_iter()
+                .map(|it| {
+                    let rel = it.rel().to_string();
+                    let p = if rel.is_empty() { norm(&start_given) } else { norm(&start_given.join(&rel)) };
+                    let cand = if rooted {
+                        (if rel.is_empty() { start_abs.clone() } else { start_abs.join(&rel) }).to_string_lossy().to_string()
+                    }
+                    else if pre_text.is_empty() {
+                        rel.clone()
+                    }
+                    else if rel.is_empty() {
+                        pre_text.clone()
+                    }
+                    else {
+                        format!("{}/{}", pre_text, rel)
+                    };
+                    (p, cand, it)
+                })
+                .collect()
+        }
+        else {
+            universe(&case.shape, &s, &base_given, &base_abs, false)
+        };
+        if case.follow {
+            st.count("read_target_walks");
+        }
+        // under ReadTarget re-entrant and dangling links are error items also on a fault-free tree
+        let link_errors: std::collections::BTreeSet<String> = uni.iter().filter(|x| matches!(x.2, RefItem::Error { .. })).map(|x| x.0.clone()).collect();
         let mut expected: BTreeMap<String, usize> = BTreeMap::new();
         // the base itself (or the start directory of a dot-prefixed glob, which is not beneath
         // the base) may be yielded if the glob matches its candidate text, but need not be
@@ -359,7 +415,14 @@ impl Property for C02 {
             }
         }
         // actual
-        let walked = guard(|| drain(glob.walk(base_given.clone()), 10 * total + 100));
+        let walked = guard(|| {
+            if case.follow {
+                drain(glob.walk_with_behavior(base_given.clone(), wax::walk::LinkBehavior::ReadTarget), 10 * total + 100)
+            }
+            else {
+                drain(glob.walk(base_given.clone()), 10 * total + 100)
+            }
+        });
         let (seen, capped) = match walked {
             Ok(x) => x,
             Err(m) => {
@@ -381,6 +444,9 @@ impl Property for C02 {
                         continue;
                     }
                     *actual.entry(path.clone()).or_insert(0) += 1
+                },
+                Seen::Err { path: Some(p), .. } if case.follow && link_errors.contains(p) => {
+                    st.count("link_error_under_read_target");
                 },
                 Seen::Err { path: Some(p), .. } if !std::path::Path::new(p).is_dir() => {
                     // the invariant prefix names something that is not a directory (e.g. the glob
